@@ -10,7 +10,7 @@ from harness import vlib
 from harness import c15lib as L
 
 THEOREMS = [
-    "C15_agree_partial", "C15_agree_o_partial", "C15_exact_serializes", "C15_frame_o_partial",
+    "C15_agree_partial", "C15_agree_o_partial", "C15_pack_order_perm", "C15_exact_serializes", "C15_frame_o_partial",
     "C15_compositional_list", "C15_compositional_dict", "C15_compositional_tuple",
     "C15_compositional_optional", "C15_compositional_field", "C15_compositional_wrapper",
     "C15_unpack_compositional_list", "C15_unpack_compositional_dict", "C15_unpack_compositional_tuple",
